@@ -15,5 +15,6 @@ if ! (cd "$SCR/repo" && patch -p1 -s --no-backup-if-mismatch < "$PATCH" >/dev/nu
 fi
 mkdir -p "$SCR/ev"
 export GOFLAGS=-mod=mod GOPROXY=off GOSUMDB=off GOTOOLCHAIN=local GOWORK=off CGO_ENABLED=0
+. /verif/tools/gocache_env.sh
 "$HERE/bin/verifcheck" -repo "$SCR/repo" -verif "$HERE" -prop "$PROP" -tier "$TIER" -evidence "$SCR/ev/$PROP.json" 2>&1 | grep -E "violated:|INFRA|KNOWN-FINDING| obligations over |normalisation|panic" | sed "s#$SCR/repo/##g"
 exit ${PIPESTATUS[0]}
